@@ -9,6 +9,7 @@
 mod arena;
 mod front;
 mod info;
+mod pool;
 mod procs;
 mod prog;
 mod strs;
@@ -20,6 +21,7 @@ fn main() {
     match mode {
         "prog" => prog::worker(),
         "arena" => arena::worker(),
+        "pool" => pool::worker(),
         "info" => info::info(),
         "procs" => procs::worker(),
         "strs" => strs::worker(),
